@@ -30,6 +30,7 @@ code on every class x segmentation that was run.
 """
 import asyncio
 import json
+import logging
 import os
 import signal
 import time
@@ -40,6 +41,7 @@ import hostile_gen as HG
 from vloop import VirtualLoop, FakeTransport
 
 POLL = 0.0001
+CHASE_CAP = 8                  # reader polls a `chase` gap waits for the reader to stop before it goes on anyway
 HB = 0.05                      # heartbeat interval (both directions) of logged-in sessions, virtual seconds
 WALL_PER_FRAME = 1.0           # seconds one deserialize() call may take (measured as CPU time of this process: robust against a loaded machine)
 CASE_WALL = 4.0                # CPU seconds after which a scenario is aborted (the loop is blocked); the costliest legitimate one takes < 1.5 s
@@ -134,8 +136,45 @@ def libs():
     body = type('H07Body', (fix.DataSegment,), {'Entries': [fix.Entry(fixm.Username, False), fix.Entry(ca, False), fix.Entry(cb, False)]})
     gm = type('H07GroupMsg', (fix.Message,), {}, Name='H07GroupMsg', Type='H7', Category='h07', HeaderCls=fixm.Header, BodyCls=body,
               TrailerCls=fixm.Trailer)
-    _L.update(soup=soup, soup_session=soup_session, fix=fix, fixm=fixm, fs=fs, Server=Server, GroupMsg=gm)
+    # fields WITH enumeration tables, the way nasdaq-fix-codegen writes them (`Values = {wire value: symbolic name}` plus one class
+    # attribute per symbolic name); the suite's dictionary has none (its `Values` are None / {}).  Tags 7054.. are used by nothing else.
+    def efld(tag, name, ty, values):
+        ns = {'Values': values}
+        ns.update({sym: wire for wire, sym in (values or {}).items()})
+        return type(name, (fix.Field,), ns, Tag=tag, Name=name, Type=ty)
+    e = {7054: efld(7054, 'H07Side', fix.FixString, {'1': 'BUY', '2': 'SELL', '5': 'SELL_SHORT'}),
+         7098: efld(7098, 'H07EncryptMethod', fix.FixInt, {0: 'NONE_OTHER', 1: 'PKCS', 2: 'DES'}),
+         7040: efld(7040, 'H07OrdType', fix.FixChar, {'1': 'MARKET', '2': 'LIMIT', 'P': 'PEGGED'}),
+         7059: efld(7059, 'H07NoEnum', fix.FixString, {}),
+         7060: efld(7060, 'H07NoneEnum', fix.FixInt, None),
+         7071: efld(7071, 'H07NoLegs', fix.FixInt, None),
+         7072: efld(7072, 'H07LegSide', fix.FixString, {'B': 'BUY', 'S': 'SELL'}),
+         7073: efld(7073, 'H07LegQty', fix.FixInt, None),
+         7143: efld(7143, 'H07HdrFlag', fix.FixString, {'Y': 'YES', 'N': 'NO'})}
+    gl = type('H07LegGroup', (fix.Group,), {'Entries': [fix.Entry(e[7072], True), fix.Entry(e[7073], False)]})
+    cl = type('H07LegCont', (fix.GroupContainer,), {}, CountCls=e[7071], GroupCls=gl)
+    ehdr = type('H07EnumHeader', (fix.DataSegment,), {'Entries': list(fixm.Header.Entries) + [fix.Entry(e[7143], False)]})
+    ebody = type('H07EnumBody', (fix.DataSegment,), {'Entries': [fix.Entry(fixm.Username, False), fix.Entry(e[7054], False), fix.Entry(e[7098], False),
+                                                                fix.Entry(e[7040], False), fix.Entry(e[7059], False), fix.Entry(e[7060], False),
+                                                                fix.Entry(cl, False)]})
+    em = type('H07EnumMsg', (fix.Message,), {}, Name='H07EnumMsg', Type='H8', Category='h07', HeaderCls=ehdr, BodyCls=ebody, TrailerCls=fixm.Trailer)
+    # a Logon-like message with an enumerated field (FIX Logon carries EncryptMethod 98): what a session over a generated dictionary
+    # logs in with, and what the counterparty answers with
+    lbody = type('H07LogonBody', (fix.DataSegment,), {'Entries': [fix.Entry(fixm.Username, False), fix.Entry(e[7098], False), fix.Entry(e[7054], False)]})
+    lm = type('H07Logon', (fix.Message,), {}, Name='H07Logon', Type='HA', Category='h07', HeaderCls=ehdr, BodyCls=lbody, TrailerCls=fixm.Trailer)
+    _L.update(soup=soup, soup_session=soup_session, fix=fix, fixm=fixm, fs=fs, Server=Server, GroupMsg=gm, EnumMsg=em, EnumLogon=lm)
     return _L
+
+
+def fix_login_msg(ty='L'):
+    """the logon message a FIX session of the scenario logs in with: the suite's `Login` (type L) or the logon over the dictionary
+    with enumerations (type HA, EncryptMethod-like field set to a member of its enumeration)"""
+    L = libs()
+    fix, fixm = L['fix'], L['fixm']
+    hdr = {'SenderCompID': 'ME', 'TargetCompID': 'PEER', 'MsgSeqNum': 1}
+    if ty == 'HA':
+        return L['EnumLogon']({fix.MessageSegments.HEADER: hdr, fix.MessageSegments.BODY: {'Username': 'u', 'H07EncryptMethod': 0}})
+    return fixm.Login({fix.MessageSegments.HEADER: hdr, fix.MessageSegments.BODY: {'Username': 'u'}})
 
 
 # ====================================================================== valid frames (independent encoders) and what a message carries
@@ -187,7 +226,7 @@ def number_of(kind, m):
     L = libs()
     try:
         if kind == 'fix':
-            u = m.Username if type(m).Type in ('N', 'H7') else None
+            u = m.Username if type(m).Type in ('N', 'H7', 'H8') else None
             return int(u[1:]) if isinstance(u, str) and u[:1] == 'n' and u[1:].isdigit() else None
         soup = L['soup']
         if isinstance(m, (soup.SequencedData, soup.UnSequencedData)):
@@ -229,12 +268,20 @@ def probe_cls(reader_cls):
             if rec['n_deser'] > MAX_DESER:
                 raise ReaderHang(f'the reader called deserialize() more than {MAX_DESER} times in one scenario')
             t0 = time.process_time()
+            stopping = True            # an exception out of deserialize() ends the session, like a logout frame
             try:
-                return super().deserialize()
+                r = super().deserialize()
+                try:
+                    stopping = bool(r[1])
+                except Exception:  # noqa
+                    stopping = False
+                return r
             finally:
                 dt = time.process_time() - t0
                 if dt > rec['max_wall']:
                     rec['max_wall'] = dt
+                if stopping and rec.get('stop_evt') is not None:
+                    rec['stop_evt'].set()          # (`chase` gaps continue in the loop turn after this reader step)
     Probe.__name__ = 'H07Probe' + reader_cls.__name__
     _PROBES[reader_cls] = Probe
     return Probe
@@ -311,6 +358,17 @@ async def _scenario(case, rec, res):
     tr = res['tr'] = FakeTransport()
     tr.protocol = s
     s.connection_made(tr)
+    rec['stop_evt'] = asyncio.Event()
+    escapes = res['feed_exceptions'] = []
+
+    def feed(data):
+        """the peer's bytes reach `protocol.data_received` (or wait while reading is paused).  The harness plays the transport: an
+        exception out of `data_received` is an exception in the event loop's read callback (asyncio logs 'Fatal error:
+        protocol.data_received() call failed.' and aborts the connection) — recorded, never propagated into the scenario"""
+        try:
+            tr.feed(data)
+        except Exception as e:  # noqa
+            escapes.append(f'{err_name(e)}: {e!r:.100}')
     r = getattr(s, '_reader', None)
     if r is not None and hasattr(r, 'on_msg_coro') and hasattr(r, 'on_close_coro'):
         om, oc = r.on_msg_coro, r.on_close_coro
@@ -331,7 +389,7 @@ async def _scenario(case, rec, res):
             finally:
                 depth[0] -= 1
         r.on_msg_coro, r.on_close_coro = om2, oc2
-    pull_task = None
+    pull_task = login_task = None
 
     async def puller():
         try:
@@ -347,14 +405,13 @@ async def _scenario(case, rec, res):
         if kind in ('soup-client', 'itch', 'ouch', 'sqf'):
             t = asyncio.create_task(s.login(soup.LoginRequest('u', 'p', 's', '1')), name='U-login')
         elif kind == 'fix':
-            fix, fixm = L['fix'], L['fixm']
-            t = asyncio.create_task(s.login(fixm.Login({fix.MessageSegments.HEADER: {'SenderCompID': 'ME', 'TargetCompID': 'PEER', 'MsgSeqNum': 1},
-                                                        fix.MessageSegments.BODY: {'Username': 'u'}})), name='U-login')
+            t = asyncio.create_task(s.login(fix_login_msg(case.get('logon', 'L'))), name='U-login')
         else:
             t = None
         for _ in range(3):
             await asyncio.sleep(0)
-        tr.feed(valid_frame(kind, 'login', 1))
+        feed(valid_frame(kind, 'login', 1) if case.get('logon', 'L') == 'L' else
+             HG.fix_good(FIX_VER, fix_fields('HA', 1, 'u', [(7098, 0)])))
         if t is not None:
             await asyncio.wait_for(t, 0.02)
             if kind in ('itch', 'ouch', 'sqf'):
@@ -368,6 +425,14 @@ async def _scenario(case, rec, res):
                 raise RuntimeError('server session never answered the login request')
             for _ in range(3):
                 await asyncio.sleep(0)
+    elif phase == 'login':
+        # the hostile stream IS what answers the login request: `login()` is pending while it arrives
+        if kind == 'fix':
+            login_task = asyncio.create_task(s.login(fix_login_msg(case.get('logon', 'L'))), name='U-login')
+        else:
+            login_task = asyncio.create_task(s.login(soup.LoginRequest('u', 'p', 's', '1')), name='U-login')
+        for _ in range(3):
+            await asyncio.sleep(0)
     elif kind != 'soup-server':
         pull_task = asyncio.create_task(puller(), name='U-pull')
         await asyncio.sleep(0)
@@ -378,9 +443,18 @@ async def _scenario(case, rec, res):
     for c, gap in list(case['cuts']) + [[len(stream), ['t', 0]]]:
         c = min(c, len(stream))
         if c > pos:
-            tr.feed(stream[pos:c])
+            feed(stream[pos:c])
             pos = c
         if gap[0] == 't':
+            for _ in range(gap[1]):
+                await asyncio.sleep(0)
+        elif gap[0] == 'chase':
+            # the peer KEEPS SENDING: go on in the loop turn after the reader step in which `deserialize()` raised / announced the
+            # end of the session (the close that follows takes a few loop turns and no time), plus gap[1] turns
+            try:
+                await asyncio.wait_for(rec['stop_evt'].wait(), CHASE_CAP * POLL)
+            except asyncio.TimeoutError:
+                pass
             for _ in range(gap[1]):
                 await asyncio.sleep(0)
         else:
@@ -396,7 +470,7 @@ async def _scenario(case, rec, res):
     while loop.time() < deadline and not s.is_closed():
         n = 9000 + k
         probes.append(n)
-        tr.feed(valid_frame(kind, ('msg', n), seq))
+        feed(valid_frame(kind, ('msg', n), seq))
         k += 1
         seq += 1
         await asyncio.sleep(gap)
@@ -411,7 +485,7 @@ async def _scenario(case, rec, res):
         more = [9000 + k, 9001 + k]
         for n in more:
             probes.append(n)
-            tr.feed(valid_frame(kind, ('msg', n), seq))
+            feed(valid_frame(kind, ('msg', n), seq))
             seq += 1
         t_end = loop.time() + (len(probes) + 20) * POLL * 2.5
         while loop.time() < t_end and not s.is_closed():
@@ -447,11 +521,62 @@ async def _scenario(case, rec, res):
     if pull_task is not None and not pull_task.done():
         pull_task.cancel()
         await asyncio.gather(pull_task, return_exceptions=True)
+    if login_task is not None:
+        if not login_task.done():
+            res['login'] = 'pending after close()'
+            login_task.cancel()
+        r_ = (await asyncio.gather(login_task, return_exceptions=True))[0]
+        res.setdefault('login', 'ok' if not isinstance(r_, BaseException) else err_name(r_))
     res['vtime'] = loop.time()
+
+
+class _FormatAndDrop(logging.Handler):
+    """a handler that does what every real handler does first — format the record (`msg % args`, hence `str()` / `repr()` of every
+    argument) — and then drops the text.  A formatting failure is swallowed by `logging` itself on a real handler (`handleError`
+    prints it to stderr): counted here, never a verdict."""
+    def __init__(self):
+        super().__init__(logging.DEBUG)
+        self.records, self.errors = 0, []
+
+    def emit(self, record):
+        self.records += 1
+        try:
+            record.getMessage()
+        except Exception as e:  # noqa
+            self.errors.append(f'{record.name}: {record.msg!r:.60}: {err_name(e)}')
+
+
+class debug_logging:
+    """`with debug_logging() as h:` — the library runs with logging ENABLED at DEBUG (the harness disables logging globally,
+    `common.use_repo`): code guarded by `isEnabledFor`, lazily formatted arguments and `__str__` / `__repr__` of messages are executed"""
+    def __enter__(self):
+        self.h = _FormatAndDrop()
+        root = logging.getLogger()
+        self.level, self.disabled = root.level, logging.root.manager.disable
+        root.addHandler(self.h)
+        root.setLevel(logging.DEBUG)
+        logging.disable(logging.NOTSET)
+        return self.h
+
+    def __exit__(self, *a):
+        root = logging.getLogger()
+        root.removeHandler(self.h)
+        root.setLevel(self.level)
+        logging.disable(self.disabled)
+        return False
 
 
 def run_case(case):
     """-> res dict (never raises for what the library does)"""
+    if case.get('debug_log'):
+        with debug_logging() as h:
+            res = _run_case(case)
+        res['log_records'], res['log_format_errors'] = h.records, h.errors[:3]
+        return res
+    return _run_case(case)
+
+
+def _run_case(case):
     rec = {'on': True, 'log': [], 'n_deser': 0, 'max_wall': 0.0}
     res = {'log': rec['log'], 'rec': rec}
     loop = VirtualLoop()
@@ -505,6 +630,9 @@ def oracle(case, res):
         out.append(f'{cls}: one deserialize() call blocked the event loop for {res["max_wall"]:.2f} s (CPU time)')
     if res['loop_exceptions']:
         out.append(f'{cls}: exception reached the event loop: {res["loop_exceptions"][0]}')
+    if res.get('feed_exceptions'):
+        out.append(f'{cls}: exception reached the event loop: protocol.data_received() raised {res["feed_exceptions"][0]} '
+                   f'(on a real transport: "Fatal error: protocol.data_received() call failed.")')
     if res['task_exceptions']:
         out.append(f'{cls}: task {res["task_exceptions"][0][0]} died with {res["task_exceptions"][0][1]}')
     if not res['closed_before_final']:
@@ -621,6 +749,16 @@ def gen_cuts(rng, spans, bad_i, zones, total, style):
     """cut positions + what happens after each segment"""
     bs = spans[bad_i][0]
     ends = [e for _, e, _ in spans[:-1]]
+    if style == 'chase':
+        # the peer keeps sending while the session reacts to the hostile frame: everything up to the end of the hostile frame, then —
+        # `k` loop turns after the reader step that parsed it — one further frame per segment, 0..2 loop turns apart, no virtual time
+        k = rng.choice([0, 1, 2, 3]) if zones == 'k?' else zones
+        be = spans[bad_i][1]
+        head = [[bs, rng.choice([['t', 0], ['a', POLL], ['a', 2 * POLL]])]] if bs > 0 and rng.random() < 0.5 else []
+        if rng.random() < 0.3 and be - bs > 1:
+            head.append([be - 1, rng.choice([['t', 0], ['a', POLL]])])           # the last byte of the hostile frame arrives alone
+        tail = [[e, ['t', rng.choice([0, 1, 1, 2])]] for _, e, _ in spans[bad_i + 1:-1]]
+        return head + [[be, ['chase', k]]] + tail
     if style == 'whole':
         cuts = []
     elif style == 'per-frame':
@@ -648,8 +786,12 @@ def gen_cuts(rng, spans, bad_i, zones, total, style):
     return [[c, gp] for c, gp in zip(cuts, gaps)]
 
 
-def build_case(rng, kind, phase, bad, style=None):
+def build_case(rng, kind, phase, bad, style=None, chase_k=None, logon=None):
     n_pre, n_post = rng.choice([0, 0, 1, 2]), rng.choice([0, 1, 1, 2, 3])
+    if style == 'chase':
+        n_post = rng.choice([3, 4, 6])
+    if phase == 'login':
+        n_pre = 0                       # the hostile frame is the first thing the peer says after the login request
     nxt = [1]
 
     def valid():
@@ -662,9 +804,16 @@ def build_case(rng, kind, phase, bad, style=None):
     parts.append({'tok': 'bad', 'b': bad['parts'], 'delimited': bad['delimited']})
     parts += [valid() for _ in range(n_post)]
     case = {'kind': 'hostile', 'sess': kind, 'phase': phase, 'cls': bad['cls'], 'wants': bad['wants'], 'parts': parts, 'cuts': []}
+    if logon:
+        case['logon'] = logon
     stream, spans = stream_of(case)
     total = len(stream)
-    if 'UNDELIMITED_OBSERVATION' in bad['cls']:
+    if bad['cls'] == 'fix:garbage':
+        # unconstrained bytes announce whatever length their digits happen to spell (`…8=950␁…` makes the reader wait for 950 bytes):
+        # not a delimited frame — the statement holds such streams to the no-escape / close-still-works clauses and "an open session
+        # has a live reader" only
+        case['wants'] = None
+    elif 'UNDELIMITED_OBSERVATION' in bad['cls']:
         case['wants'] = bad['len']     # the observation is exactly that the reader waits for such an announcement
     elif case['wants'] is not None and case['wants'] > bad['len'] + (total - spans[bad_i][1]) + 400:
         case['wants'] = None           # the announcement cannot be satisfied by what the scenario sends: weak clause only
@@ -673,7 +822,7 @@ def build_case(rng, kind, phase, bad, style=None):
         if total <= 120:
             styles.append('bytes')
         style = rng.choice(styles)
-    case['cuts'] = gen_cuts(rng, spans, bad_i, bad['zones'], total, style)
+    case['cuts'] = gen_cuts(rng, spans, bad_i, bad['zones'] if style != 'chase' else ('k?' if chase_k is None else chase_k), total, style)
     case['style'] = style
     return case
 
@@ -688,6 +837,7 @@ def malformed_for(rng, kind, follow_len=120, undelimited=False):
         good = fix_fields('N', 7, 'hostile')
         out = HG.fix_malformed(rng, good, FIX_VER, follow_len=follow_len, undelimited=undelimited)
         out += fix_group_classes(rng)
+        out += fix_enum_classes(rng)
         out.append(HG.fix_garbage(rng))
         return out
     out = HG.soup_malformed(rng, to_client=(kind == 'soup-client'))
@@ -728,10 +878,67 @@ def fix_group_classes(rng):
     return out
 
 
+def fix_enum_classes(rng):
+    """well-formed frames over the dictionary WITH enumeration tables (message type H8, logon type HA): every enumerated field in and
+    out of its enumeration — string, int, char, inside a repeating group, in the header —, spellings `int()` maps into / out of the
+    table, empty values, fields with an empty / absent table for contrast.  The decoder does not check enumerations: each of these
+    frames decodes; anything the session does with the decoded message afterwards (logging it, dispatching it) must cope."""
+    out = []
+
+    def mk(cls, ty, body, hdr=()):
+        fl = fix_fields(ty, 9)
+        fl = fl[:5] + list(hdr) + [(553, 'hostile')] + list(body)
+        f = HG.fix_good(FIX_VER, fl)
+        return HG._mk(cls, f, [len(f) - 8, len(f) - 1, len(f) // 2], delimited=True)
+    legs = lambda a, b: [(7071, 2), (7072, a), (7073, 5), (7072, b), (7073, 6)]
+    out.append(mk('fix:enum:in-enumeration', 'H8', [(7054, rng.choice('125')), (7098, rng.choice([0, 1, 2])), (7040, rng.choice('12P')),
+                                                   (7059, 'x'), (7060, 5)] + legs('B', 'S'), [(7143, rng.choice('YN'))]))
+    for what, body, hdr in (('string', [(7054, rng.choice(['7', '0', 'BUY', '11', 'x']))], ()),
+                            ('int', [(7098, rng.choice([9, 3, -1, 100, 10 ** 12]))], ()),
+                            ('char', [(7040, rng.choice(['Z', 'p', '3', '12']))], ()),
+                            ('in-group', legs('B', rng.choice(['X', 'b', '1'])), ()),
+                            ('in-group-first', legs(rng.choice(['X', '']), 'S'), ()),
+                            ('in-header', [(7054, '1')], [(7143, rng.choice(['Q', 'y', 'YES']))]),
+                            ('empty-value', [(rng.choice([7054, 7040]), '')], ()),
+                            ('padded', [(7054, rng.choice([' 1', '1 ', '01']))], ()),
+                            ('several', [(7054, '9'), (7098, 9), (7040, '9')] + legs('9', '9'), [(7143, '9')])):
+        out.append(mk('fix:enum:out-of-enumeration:' + what, 'H8', body, hdr))
+    for sp in ('01', '+1', ' 2', '1_0', '-0'):            # what int() turns into a member / a non-member of the int enumeration
+        out.append(mk('fix:enum:int-spelling', 'H8', [(7098, sp)]))
+    out.append(mk('fix:enum:empty-or-absent-table', 'H8', [(7059, rng.choice(['', 'anything', '7'])), (7060, rng.choice([7, -1, 0]))]))
+    # the logon message of that dictionary, as the counterparty's reply: enumerated field inside / outside / absent
+    out.append(mk('fix:enum-logon:in-enumeration', 'HA', [(7098, rng.choice([0, 1, 2]))]))
+    out.append(mk('fix:enum-logon:out-of-enumeration', 'HA', [(7098, rng.choice([9, 3, 7, -1]))]))
+    out.append(mk('fix:enum-logon:out-of-enumeration-string', 'HA', [(7098, 0), (7054, rng.choice(['7', 'x']))]))
+    out.append(mk('fix:enum-logon:field-absent', 'HA', []))
+    out.append(mk('fix:enum-logon:unknown-tag', 'HA', [(7098, 0), (99999, 'x')]))
+    return out
+
+
+LOGIN_KINDS = [('soup-client', 'login'), ('fix', 'login')]
+
+
 def gen_cases(ctx, quick):
     """yield hostile cases: every class x (session kind, phase), segmentation drawn per case; a few expensive ones per run"""
     rng = ctx.rng
     per_class = 1 if quick else 20
+    # ---- the hostile frame answers the login request (login() pending), over the suite's dictionary and over the one with enumerations
+    for kind, phase in LOGIN_KINDS:
+        classes = [b for b in malformed_for(rng, kind) if b['len'] < 5000 and 'MODEL_BOUNDARY' not in b['cls']]
+        enum_logon = [b for b in classes if b['cls'].startswith('fix:enum')]
+        rest = [b for b in classes if not b['cls'].startswith('fix:enum')]
+        for bad in enum_logon + (rng.sample(rest, min(len(rest), 25)) if quick else rest):
+            for _ in range(1 if quick else 6):
+                logon = None if kind != 'fix' else ('HA' if bad['cls'].startswith('fix:enum') or rng.random() < 0.3 else None)
+                yield build_case(rng, kind, phase, bad, logon=logon)
+    # ---- the peer keeps sending while the session reacts to the hostile frame: a further segment 0, 1, 2, 3 loop turns after the
+    # reader step that parsed it, then one frame per turn (client before login with a receive pending, server before login, after
+    # login, login pending, application sessions)
+    for kind, phase in KINDS + APP_KINDS + LOGIN_KINDS:
+        classes = [b for b in malformed_for(rng, kind) if b['len'] < 5000 and b['delimited'] and 'MODEL_BOUNDARY' not in b['cls']]
+        for k in (0, 1, 2, 3):
+            for bad in (rng.sample(classes, min(len(classes), 3)) if quick else classes):
+                yield build_case(rng, kind, phase, bad, 'chase', chase_k=k)
     for kind, phase in KINDS + APP_KINDS:
         classes = malformed_for(rng, kind, undelimited=UNDELIMITED_OBSERVATION)
         small = [b for b in classes if b['len'] < 5000 or 'MODEL_BOUNDARY' in b['cls']]
@@ -814,8 +1021,8 @@ def corpus_cases():
 
 
 def describe(case):
-    return {'sess': case['sess'], 'phase': case['phase'], 'cls': case['cls'], 'style': case.get('style'),
-            'parts': [p['tok'] for p in case['parts']], 'cuts': case['cuts'][:8]}
+    return {'sess': case['sess'], 'phase': case['phase'], 'cls': case['cls'], 'style': case.get('style'), 'logon': case.get('logon'),
+            'log': bool(case.get('debug_log')), 'parts': [p['tok'] for p in case['parts']], 'cuts': case['cuts'][:8]}
 
 
 def family_of(cls):
@@ -843,6 +1050,16 @@ def run_hostile(ctx):
         res = run_case(case)
         ctx.case(describe(case), nontrivial=True, sample_every=211)
         ctx.count(f'hostile:{case["sess"]}:{case["phase"]}')
+        if case.get('debug_log'):
+            ctx.count('hostile:logging-enabled-at-DEBUG')
+            ctx.cov['log_records_formatted'] = ctx.cov.get('log_records_formatted', 0) + res.get('log_records', 0)
+            for e in res.get('log_format_errors', []):
+                ctx.count('hostile:log-call-whose-formatting-raised (swallowed by logging, not a verdict)')
+                if len(ctx.notes) < 40:
+                    ctx.notes.append('log call whose formatting raised: ' + e)
+        if any(g[0] == 'chase' for _, g in case['cuts']):
+            ctx.count('hostile:peer-keeps-sending:' + ('reader-stopped' if res.get('rec', {}).get('stop_evt') is not None
+                                                         and res['rec']['stop_evt'].is_set() else 'reader-went-on'))
         ctx.count('hostile-class:' + ':'.join(case['cls'].split(':')[:3 if case['cls'].startswith(('fix:group-count:', 'soup:big:')) else 2]))
         ctx.count('hostile-style:' + str(case.get('style', tag)))
         ctx.count('hostile-outcome:' + ('hang' if 'hang' in res else 'setup-failed' if 'raised' in res else
@@ -870,6 +1087,13 @@ def run_hostile(ctx):
     for fn, c in corpus_cases():
         do(c, 'corpus')
     for case in gen_cases(ctx, quick):
+        # a share of the (small) scenarios runs with logging enabled at DEBUG; every scenario over the dictionary with enumerations
+        # runs both ways
+        small = sum((q[2] if q[0] != 'x' else len(q[1]) // 2) for p_ in case['parts'] if p_['tok'] == 'bad' for q in p_['b']) < 3000
+        if small and case['cls'].startswith('fix:enum'):
+            do(dict(case, debug_log=True), 'gen')
+        elif small and ctx.rng.random() < 0.12:
+            case = dict(case, debug_log=True)
         do(case, 'gen')
     correspond(ctx, drv, todo)
     if not drv.available:
